@@ -206,6 +206,47 @@ class World:
         else:
             self.emit('set %s definition %s' % (e.slot, S('d')))
 
+    def random_content_step(self):
+        """what the entities CONTAIN (the store model does not carry it; the library's dumps are compared with one another): dimension
+        descriptors, the extent and the data of arrays, property values / unit / uncertainty"""
+        r = self.rng
+        q = r.random()
+        a = self.pick('A')
+        if q < 0.3 and a:
+            k = r.random()
+            if k < 0.3: self.emit('adim %s sampled %s %s %s %s' % (a.slot, f64(r.choice([0.5, 1.0, 0.1])), r.choice(['~', S('time')]), r.choice(['~', S('ms')]), r.choice(['~', f64(-1.5), f64(2.0)])))
+            elif k < 0.55: self.emit('adim %s range %s %s %s' % (a.slot, lst([f64(x) for x in sorted(r.sample([-2.0, 0.0, 1.0, 2.5, 7.0, 9.0], r.randint(1, 4)))]), r.choice(['~', S('l')]), r.choice(['~', S('mV')])))
+            elif k < 0.8: self.emit('adim %s set %s' % (a.slot, lst([S(x) for x in r.sample(['p', 'q', 'r', 'ü'], r.randint(0, 3))])))
+            elif k < 0.9: self.emit('adim %s alias' % a.slot)
+            else:
+                d = self.pick('D', block=a.block)
+                if d: self.emit('adim %s frame %s %d' % (a.slot, d.slot, r.randint(0, 1)))
+        elif q < 0.45 and a:
+            f = r.choice(['interval', 'offset', 'unit', 'label', 'ticks', 'labels'])
+            v = {'interval': f64(r.choice([0.25, 2.0])), 'offset': r.choice(['~', f64(3.0)]), 'unit': r.choice(['~', S('s'), S('mV')]), 'label': r.choice(['~', S('lab')]),
+                 'ticks': lst([f64(x) for x in sorted(r.sample([0.0, 1.0, 4.0, 5.5], r.randint(1, 3)))]), 'labels': lst([S('u'), S('v')])}[f]
+            self.emit('sdim %s %d %s %s' % (a.slot, r.randint(1, 2), f, v))
+        elif q < 0.5 and a:
+            self.emit('ddims %s' % a.slot)
+        elif q < 0.65 and a:
+            rank = len(a.shape) if getattr(a, 'shape', None) else 1
+            self.emit('da_setext %s %s' % (a.slot, lst([str(r.choice([1, 2, 4, 6])) for _ in range(rank)])))
+        elif q < 0.8 and a and r.random() < 0.3:
+            self.emit('set %s %s' % (a.slot, r.choice(['origin ' + f64(2.5), 'origin ~', 'poly ' + lst([f64(1.0), f64(3.0)]), 'poly ~'])))
+        elif q < 0.75 and a:
+            self.emit('da_fill %s %s' % (a.slot, lst([f64(float(r.randint(-5, 5))) for _ in range(r.randint(1, 6))])))
+        else:
+            p = self.pick('P')
+            if not p: return
+            k = r.random()
+            if k < 0.5:
+                t = r.choice(['Double', 'Int32', 'String', 'Bool', 'Int64'])
+                mkv = {'Double': lambda: 'Double:' + f64(r.choice([1.0, -2.5, 1e300])), 'Int32': lambda: 'Int32:%d' % r.randint(-9, 9), 'String': lambda: 'String:' + S(r.choice(['', 'v', 'ü'])),
+                       'Bool': lambda: 'Bool:%d' % r.randint(0, 1), 'Int64': lambda: 'Int64:%d' % r.choice([-2 ** 40, 7])}[t]
+                self.emit('pvalues %s %s' % (p.slot, lst([mkv() for _ in range(r.randint(0, 4))])))
+            elif k < 0.6: self.emit('pvalues %s ~' % p.slot)
+            else: self.emit('pset %s %s' % (p.slot, r.choice(['unit ' + S('mV'), 'unit ~', 'uncertainty ' + f64(0.5), 'uncertainty ~', 'definition ' + S('d'), 'definition ~'])))
+
     def xcheck_all(self):
         """cross-check every container of every alive parent"""
         self.emit('xcheck B $F')
@@ -220,6 +261,7 @@ class World:
             self.emit('xcheck P %s' % e.slot)
         for e in self.alive(['T', 'M']):
             self.emit('xcheck R %s' % e.slot)
+            self.emit('xfeat %s' % e.slot)
             self.emit('xlinks ref %s' % e.slot)
         for e in self.alive(['A', 'D', 'T', 'M', 'G']):
             self.emit('xlinks src %s' % e.slot)
@@ -241,3 +283,13 @@ class World:
                 self.emit('get %s %s %s name %s' % (e.slot, e.kind, e.parent, S(e.name)))
             elif e.alive:
                 e.alive = False      # features are not re-fetched (they have no name)
+
+
+def with_hdump(lines, rng, p=0.6):
+    """after a dump, also ask every held handle (and its twin) for its entity's record: `hdump`"""
+    out = []
+    for l in lines:
+        out.append(l)
+        if l == 'dump' and rng.random() < p:
+            out.append('hdump')
+    return out
